@@ -359,7 +359,7 @@ StoreEnts(d, first, ents) ==
 PersistEnts(d, r) == StoreEnts(StoreSnap(d, r.snap), r.first, r.ents)
 \* MustSync by the raft paper: term, vote and entries must be durable before messages leave
 PersistHS(d, r) == LET h == IF r.hsset THEN r.hs ELSE d.hs
-                       must == Len(r.ents) > 0 \/ h.term # d.hs.term \/ h.vote # d.hs.vote
+                       must == Len(r.ents) > 0 \/ h.term # d.hs.term \/ h.vote # d.hs.vote \/ r.snap.idx > 0
                    IN [d EXCEPT !.hs = h, !.shs = IF must THEN h ELSE @]
 
 \* ---- node.Advance
@@ -428,6 +428,14 @@ RecordCommit(s2, c0, boot) ==
   /\ gc'  = RecGC(gc, s2, c0)
   /\ gct' = RecGCT(gc, gct, s2, c0)
   /\ gcq' = RecGCQ(gc, gcq, s2, c0, boot)
+\* two stages: what sa committed (under sa's configuration), then what sb committed on top
+RecordCommit2(sa, sb, c0) ==
+  LET g1 == RecGC(gc, sa, c0)
+      t1 == RecGCT(gc, gct, sa, c0)
+      q1 == RecGCQ(gc, gcq, sa, c0, FALSE)
+  IN /\ gc'  = RecGC(g1, sb, sa.commit)
+     /\ gct' = RecGCT(g1, t1, sb, sa.commit)
+     /\ gcq' = RecGCQ(g1, q1, sb, sa.commit, FALSE)
 NoCommitRecord == UNCHANGED <<gc, gct, gcq>>
 
 \* hand-out of entries a..b of state s to the state machine
@@ -455,31 +463,39 @@ GrantsOf(i, msgs) ==
 (* #### actions #### *)
 (* MC_ZRaft*.tla bound these; CanonFlow gives the messages the model's leader  *)
 (* sends, the trace specification accepts any FlowOK message instead.           *)
-CONSTANTS Collapsed     \* TRUE: every input runs the whole Ready pipeline atomically
+CONSTANTS Collapsed,    \* TRUE: every input runs the whole Ready pipeline atomically
+          MaxAppEnts    \* entries per MsgApp of the model's leader (MaxSizePerMsg)
 
 Init == /\ st = [i \in Server |-> Blank] /\ dur = [i \in Server |-> NoDur] /\ rdy = [i \in Server |-> NoRd]
         /\ net = {} /\ leaders = {} /\ grants = {} /\ gc = <<>> /\ gct = <<>> /\ gcq = <<>> /\ gapp = <<>>
         /\ bad = {}
 
 \* the model's leader: one append per member from its Next, after a state change
-AppTo(i, s, j) == LET p == Max(s.nx[j] - 1, s.off) IN
-                  Msg("MsgApp", i, j, s.term, p, TermAt(s, p), s.commit, Slice(s, p + 1, Last(s)), FALSE, 0, NoSnap, FALSE)
+AppTo(i, s, j) == LET p == Min(Max(s.nx[j] - 1, s.off), Last(s)) IN
+                  Msg("MsgApp", i, j, s.term, p, TermAt(s, p), s.commit,
+                      Slice(s, p + 1, Min(Last(s), p + MaxAppEnts)), FALSE, 0, NoSnap, FALSE)
 CanonFlow(i, s, s2) ==
   IF s2.role = "L" /\ (s.role # "L" \/ Last(s2) # Last(s) \/ s2.commit # s.commit)
   THEN {AppTo(i, s2, j) : j \in Members(s2) \ {i}} ELSE {}
 
 \* the atomic pipeline used when Collapsed: take everything, persist, send, advance
+RECURSIVE ApplyAllConf(_, _)
+ApplyAllConf(i, s) == IF Len(s.appq) = 0 THEN s
+                      ELSE ApplyAllConf(i, [ApplyCC(i, s, Head(s.appq).e) EXCEPT !.appq = Tail(s.appq)])
+\* (configuration entries handed out are applied at once here; apply lag is explored with the
+\* explicit pipeline, where ApplyConf is its own action)
 CollapseS(i, s2, d) ==
   LET r == MkReady(s2, s2.commit)
       s3 == AfterTake(s2, r)
-  IN [s |-> AdvanceS(s3, r), d |-> PersistHS(PersistEnts(d, r), r), r |-> r]
+  IN [s |-> ApplyAllConf(i, AdvanceS(s3, r)), d |-> PersistHS(PersistEnts(d, r), r), r |-> r]
 
 \* common tail of every input step of replica i: pre-state s, result res, extra (flow)
 \* messages, and the delivered message to take out of the network (consume)
 InputStep(i, s, res, extra, consume) ==
   LET s2 == [res.s EXCEPT !.out = @ \cup res.resp \cup extra]
   IN /\ leaders' = LeadersAfter(i, s, s2)
-     /\ RecordCommit(s2, s.commit, FALSE)
+     /\ IF Collapsed THEN RecordCommit2(s2, CollapseS(i, s2, dur[i]).s, s.commit)
+                     ELSE RecordCommit(s2, s.commit, FALSE)
      /\ IF Collapsed
         THEN LET c == CollapseS(i, s2, dur[i]) IN
              /\ st' = [st EXCEPT ![i] = c.s]
